@@ -741,12 +741,15 @@ def gen_histories(run):
         per = (mtu - 64) // 5          # how many empty messages the capacity admits (below 255 only for tiny MTUs)
         hs.append(tiny("client", mtu, 0, min(255, per), 0))
     # backlogs: hundreds of queued messages that do not fit, tiny ones behind / among them
-    bl = [("server", 1500, 300, "half", [10]), ("client", 1500, 330, "half", [0, 3, 1]), ("server", 512, 400, "whole", [0]),
-          ("server", 1096, 390, "third", [2, 0]), ("server", 1500, 270, "frag", [5, 0, 40]), ("server", 600, 340, "frag", [1]),
-          ("server", 1500, 257, "whole", [4]), ("server", 1500, 254, "whole", [4]), ("client", 900, 120, "half", [7, 7])]
+    bl = [("server", 1500, 300, "half", [10]), ("server", 512, 300, "whole", [0]), ("server", 1096, 330, "third", [2, 0]),
+          ("server", 1500, 270, "frag", [5, 0, 40]), ("server", 1500, 257, "whole", [4]), ("server", 1500, 254, "whole", [4]),
+          ("client", 900, 120, "half", [7, 7])]
+    if run.thorough():
+        bl += [("client", 1500, 330, "half", [0, 3, 1]), ("server", 512, 400, "whole", [0]), ("server", 1096, 390, "third", [2, 0]),
+               ("server", 600, 340, "frag", [1])]
     for role, mtu, n_bulk, shape, tail in bl:
         hs.append(backlog(role, mtu, n_bulk, shape, tail, where=r.choice(["behind", "behind", "both"])))
-    for _ in range(24 if run.thorough() else 3):
+    for _ in range(24 if run.thorough() else 2):
         shape = r.choice(["half", "third", "whole", "frag"])
         n_bulk = r.choice([255, 256, 257, 258, 300, r.randrange(200, 420)])
         role = "server" if n_bulk // {"half": 2, "third": 3, "whole": 1, "frag": 1}[shape] > 180 else r.choice(["client", "server"])
